@@ -241,16 +241,26 @@ func generate(e *vh.Env) []scenario {
 		for tr := 0; tr < 2; tr++ {
 			for _, large := range []bool{true, false} {
 				samp := 1
+				heavy := large && r.Intn(3) != 0 // mostly: 6..8 goroutines with about 1 MiB each, two or three rounds
 				if large {
-					samp = []int{8 << 10, 32 << 10, 32 << 10}[r.Intn(3)]
+					samp = []int{8 << 10, 32 << 10}[r.Intn(2)]
+					if heavy {
+						samp = 32 << 10
+					}
 				}
 				// one to three rounds of concurrent calls on the same session, then Close (sometimes inside the last round)
 				ph := [][]label{{lStartL(0, tr, true)}}
 				rounds := 1 + r.Intn(3)
+				if heavy {
+					rounds = 2 + r.Intn(2)
+				}
 				id := 0
 				closeInGroup := false
 				for rd := 0; rd < rounds; rd++ {
 					k := 2 + r.Intn(7) // 2..8 goroutines
+					if heavy {
+						k = 6 + r.Intn(3)
+					}
 					var grp []label
 					for j := 0; j < k; j++ {
 						var p []byte
@@ -258,6 +268,9 @@ func generate(e *vh.Env) []scenario {
 							l := 5 + r.Intn(8) // 8 KiB symbols: 40..96 KiB
 							if samp == 32<<10 {
 								l = 8 + r.Intn(25) // 32 KiB symbols: 256 KiB .. 1 MiB
+							}
+							if heavy {
+								l = 24 + r.Intn(13) // 768 KiB .. 1.1 MiB
 							}
 							id++
 							p = make([]byte, l)
